@@ -187,6 +187,11 @@ def _heavy(t):
 
 
 def _any_task(t):
+    if t[0] == "dbg":
+        # the same task with the logging module switched to DEBUG for the whole process (a host application's setting)
+        with T.debug_logging():
+            a = _any_task(t[1])
+        return a.tag_env("debug-logging")
     return _sequence_task(t[1]) if t[0] == "seq" else _small_task(t[1])
 
 
@@ -444,7 +449,8 @@ def run(tier, seed):
     core.pmerge(_any_task, [("seq", t) for t in reversed([(["T23", "T23'", "T29", "T23^", "T29^", "T11^"],), (["E37", "E37'", "E37^"],),
                                                          (["Params1024", "Params1024'"],), (["Params1024^"],),
                                                          (["ParamsEd25519", "ParamsEd25519'"],), (["ParamsEd25519^"],)])] +
-                [("small", t) for t in tasks], acc)
+                [("small", t) for t in tasks] + [("dbg", ("small", t)) for t in tasks if t[0] in ("T23", "E37")] +
+                [("dbg", ("seq", (["Params1024", "ParamsEd25519"],)))], acc)
     core.pmerge(_ids_task, [(n, s) for n in (["T23", "E37"] if quick else ["T23", "T29", "E37", "E109"]) for s in "ABS"], acc)
     tasks_seq = [(["T23", "T23'", "T29"],), (["E37", "E37'"],), (["Params1024", "Params1024'"],), (["ParamsEd25519", "ParamsEd25519'"],)]
     # shipped
@@ -481,6 +487,11 @@ def run(tier, seed):
     core.pmerge(_heavy, heavy, acc)
     _golden(acc)
     _default_path(acc)
+    with T.debug_logging():
+        a = Acc()
+        _golden(a)
+        _default_path(a)
+    acc.merge(a.tag_env("debug-logging"))
     return acc
 
 
